@@ -261,3 +261,52 @@ func ruleI3(p *Prog, r *Report) {
 	}
 	r.Floor(R, "range iterator constructors", 2, n)
 }
+
+// I4 removal keeps the order of the remaining elements: the element lists define the enumeration order (digest
+// order, insertion order of fully colliding keys, index order). In every Remove of an element list or array
+// data slab no element is moved to another position by an element store (`s[i] = s[j]`, the swap-remove idiom);
+// elements leave through an order-preserving deletion (slices.Delete, append of the two halves, copy-shift).
+func ruleI4(p *Prog, r *Report) {
+	const R = "I4"
+	n := 0
+	owners := map[string]string{"hkeyElements": "elems", "singleElements": "elems", "ArrayDataSlab": "elements"}
+	for _, top := range p.TopFuncs() {
+		fld, ok := owners[recvName(top)]
+		if !ok || top.Name() != "Remove" || len(top.Params) == 0 {
+			continue
+		}
+		n++
+		recv := top.Params[0]
+		var moved ssa.Instruction
+		eachInstr(top, func(in ssa.Instruction) {
+			st, ok := in.(*ssa.Store)
+			if !ok {
+				return
+			}
+			ia, ok := st.Addr.(*ssa.IndexAddr)
+			if !ok {
+				return
+			}
+			fr, ok := asLoadedField(ia.X)
+			if !ok || fr.Field != fld || !sameValue(fr.Base, recv) {
+				return
+			}
+			// value loaded from the same list at some index
+			v := canon(st.Val)
+			if u, ok := v.(*ssa.UnOp); ok && u.Op == token.MUL {
+				if ia2, ok := u.X.(*ssa.IndexAddr); ok {
+					if fr2, ok := asLoadedField(ia2.X); ok && fr2.Field == fld && sameValue(fr2.Base, recv) && !sameValue(ia2.Index, ia.Index) {
+						moved = in
+					}
+				}
+			}
+		})
+		cons := "order-preserving-removal:" + p.Name(top)
+		if moved != nil {
+			r.Bad(R, cons, p.InstrPos(moved), "an element is moved to another position while one is removed (swap-remove): the remaining elements are no longer enumerated in their canonical (digest / insertion / index) order")
+		} else {
+			r.Ok(R, cons, p.Pos(top.Pos()), "no element changes its relative position during removal")
+		}
+	}
+	r.Floor(R, "element-list removals", 3, n)
+}
